@@ -85,4 +85,12 @@ theorem C14_grammar_is_model_grammar :
 /-- the token kinds of the model are numbered like the grammar's token types -/
 theorem C14_model_token_kinds : TokKind.all.map TokKind.name = Gen.tokenNames := by decide +kernel
 
+
+/-- the generated recursive-descent parsers of the two targets have the same control-flow skeleton: the
+same prediction decisions, the same ATN states entered and the same tokens matched, in the same order
+(ANTLR emits one skeleton per grammar, whatever the target language) -/
+theorem C14_parser_code_skeletons_identical :
+    Gen.pyPredict = Gen.cppPredict ∧ Gen.pyStates = Gen.cppStates ∧ Gen.pyMatch = Gen.cppMatch := by
+  decide +kernel
+
 end Blackbird
